@@ -418,10 +418,11 @@ def run(ctx):
     for k in unexplained:
         label, h = hs[k]
         found = None
-        if searched < 4:
+        # (not needed when the run already holds a concrete failing history: the check fails with that input)
+        if searched < 3 and not any(not v['no_input'] for v in ctx.violations):
             searched += 1
             m = re.match(r'call (\d+)', disagree[k][0])
-            cands = hu.search_candidates(h, int(m.group(1)) if m else len(h['calls']))
+            cands = hu.search_candidates(h, int(m.group(1)) if m else len(h['calls']))[:120]
             for cand, r in zip(cands, pool.run(cands)):
                 fs = [f for f in hu.oracle(cand, r) if not f[0].startswith('harness:')]
                 if fs:
